@@ -77,10 +77,6 @@ def restrictTo (names : List Name) (f : Family) : Option Family :=
   | [] => none
   | smp :: rest => some { f with samples := smp :: rest }
 
-/-- forget the unit (the part of `restrictTo` the code does not keep — finding F5) -/
-def dropUnit (f : Family) : Family := { f with unit := [] }
-
-
 /-! ### C06: the invariant -/
 
 /-- the two maps are mutually consistent: `namesToCollectors` is exactly the graph of `collectorToNames`, plus
@@ -94,27 +90,11 @@ structure Inv (s : State) : Prop where
       ((∃ c ns, o = Owner.coll c ∧ (c, ns) ∈ s.collectorToNames ∧ n ∈ ns) ∨
        (o = Owner.empty ∧ n = tiName ∧ truthy s.targetInfo = true))
 
-/-- every recorded name list is duplicate-free (what `unregister` needs — finding F6) -/
-def OwnNodup (s : State) : Prop := ∀ c ns, (c, ns) ∈ s.collectorToNames → ns.Nodup
-
-/-- every collector a history registers claims pairwise distinct names -/
-def WellDescribed (autoDescribe : Bool) (ops : List Op) : Prop :=
-  ∀ c, Op.register c ∈ ops → (getNames autoDescribe c).Nodup
-
 /-! ### C07: side conditions -/
 
-/-- every sample name a registered collector emits is among the names it claimed -/
+/-- every sample name a registered collector emits is among the names it claimed (a real precondition: the registry
+finds collectors only through the names they claimed) -/
 def ClaimsCover (s : State) : Prop :=
   ∀ c ns, (c, ns) ∈ s.collectorToNames → ∀ f, f ∈ c.families → ∀ smp, smp ∈ f.samples → smp.name ∈ ns
-
-/-- no registered collector emits a family with a unit (excludes finding F5) -/
-def NoUnits (s : State) : Prop :=
-  ∀ c ns, (c, ns) ∈ s.collectorToNames → ∀ f, f ∈ c.families → f.unit = []
-
-/-- if `target_info` is asked for, no registered collector emits a sample of that name (excludes the finding
-"restricted registry skips the claimant of target_info") -/
-def TargetInfoNotEmitted (names : List Name) (s : State) : Prop :=
-  tiName ∈ names → ∀ c ns, (c, ns) ∈ s.collectorToNames → ∀ f, f ∈ c.families → ∀ smp, smp ∈ f.samples →
-    smp.name ≠ tiName
 
 end PromVerif.Spec.Registry
